@@ -78,9 +78,9 @@ def run(chk):
         'parser.hands_parser) are folded inside the analyser on a covering family of deal shapes - every suit-length pattern '
         'class that the code can distinguish: balanced, a void in each suit position, double voids, 13-card suits, freaks, high '
         'and low cards swapped, partial deals with 1-4 empty hands - x all four first seats; the encoder text/vector is compared '
-        'with the canonical form (oracle in this checker) and the decoded hands with the original sets. The numpy pair is checked '
-        'structurally (index written = int(card), index read -> Card.int_to_card, same seat on both sides; C15.R2 proves the two '
-        'inverse). generate_random_hands: the pack is only shuffled and sliced, so the four constant slices are evaluated under '
+        'with the canonical form (oracle in this checker) and the decoded hands with the original sets. The numpy pair (to_np_binary / '
+        'convert_np_binary) is folded the same way on a model of numpy\'s one-dimensional arrays (sa.npstub: zeros/where/index and '
+        'mask reads and writes with numpy\'s documented semantics; numpy itself is never run) for three dtypes. generate_random_hands: the pack is only shuffled and sliced, so the four constant slices are evaluated under '
         'three different permutations: 4 disjoint 13-card hands covering the 52 cards. NOT decided: equality for each individual '
         'deal (runtime value); the family covers the shapes, the rank tables are C15.')
     chk.assumptions.append('cards are treated uniformly by the encoders (per-card comprehension / loop), so deal *shapes* are the relevant classes')
@@ -170,43 +170,47 @@ def run(chk):
         chk.require(eq == ('ok', False), 'C14.R1', *loc(repo, 'Hands', '__eq__', 'C14.R1'), f'Hands.__eq__ with the {s} hand different',
                     f'deals differing only in the {s} hand compare unequal', f'Hands.__eq__ does not see that the {s} hands differ: {eq}')
 
-    # ---- numpy pair: structural sibling agreement ---------------------------------------------------------------
+    # ---- numpy pair: folded on the 1-d array model (sa.npstub) ----------------------------------------------------------
+    from .. import npstub
+    f.numpy = npstub
     w_np, q_np = loc(repo, 'Hands', 'to_np_binary', 'C14.R2')
-    _, tnp = repo.method('Hands', 'to_np_binary', 'C14.R2')
-    stores = [n for n in ast.walk(tnp) if isinstance(n, ast.Assign) and isinstance(n.targets[0], ast.Subscript)
-              and isinstance(n.value, ast.Constant) and n.value.value == 1]
-    good = False
-    for st in stores:
-        sl = st.targets[0].slice
-        if isinstance(sl, ast.ListComp) and ast.unparse(sl.elt) == f'int({sl.generators[0].target.id})' and \
-                ast.unparse(sl.generators[0].iter).startswith('self['):
-            good = True
-    zeros = [n for n in ast.walk(tnp) if isinstance(n, ast.Call) and ast.unparse(n.func) in ('np.zeros', 'numpy.zeros')
-             and n.args and isinstance(n.args[0], ast.Constant) and n.args[0].value == 52]
-    loops = [n for n in ast.walk(tnp) if isinstance(n, ast.For) and ast.unparse(n.iter) == 'Player']
-    chk.require(good and len(zeros) == 1 and len(loops) == 1, 'C14.R2', w_np, q_np, 'to_np_binary index = int(card) over 52 zeros per seat',
-                'numpy vectors: 52 zeros per seat, 1 at int(card) for each card of that seat',
-                'to_np_binary does not write 1 at int(card) into a 52-slot zero vector for every seat')
     w_cn, q_cn = loc(repo, 'Hands', 'convert_np_binary', 'C14.R2')
-    _, cnp = repo.method('Hands', 'convert_np_binary', 'C14.R2')
-    ret = [n for n in ast.walk(cnp) if isinstance(n, ast.Return)]
-    ok_np = len(ret) == 1 and isinstance(ret[0].value, ast.Call) and ast.unparse(ret[0].value.func) == 'Hands'
-    if ok_np:
-        S = __import__('sa.paths', fromlist=['Summarizer']).Summarizer(repo, 'C14.R2')
-        p = S.paths('Hands', 'convert_np_binary')[0]
-        call = p.end[1]
-        for k in call.keywords:
-            seat = {'north_hand': 'N', 'east_hand': 'E', 'south_hand': 'S', 'west_hand': 'W'}.get(k.arg)
-            v = k.value
-            good = seat is not None and isinstance(v, (ast.SetComp, ast.GeneratorExp, ast.Call)) 
-            txt = ast.unparse(v)
-            good = good and f'binary_hands[Player.{seat}] == 1' in txt and 'Card.int_to_card(int(' in txt and \
-                not any(f'Player.{o}' in txt for o in SEATS if o != seat)
-            chk.require(good, 'C14.R2', w_cn, q_cn, f'{k.arg}={txt[:70]}',
-                        f'{k.arg} is rebuilt by int_to_card from the indices where the {seat} vector is 1',
-                        f'{k.arg} is not rebuilt from the {seat} vector via Card.int_to_card')
-    else:
-        raise AnalysisError('C14.R2', q_cn, 'unrecognised shape of convert_np_binary')
+    n_np = 0
+    for name, hands in deals:
+        H = f._construct(repo.cls('Hands'), [], {'north_hand': set(hands['N']), 'east_hand': set(hands['E']),
+                                                 'south_hand': set(hands['S']), 'west_hand': set(hands['W'])})
+        for dt in (None, 'float32', 'int8'):
+            chk.evals()
+            n_np += 1
+            b = fold('C14.R2', q_np, lambda: f.call_method(H, 'to_np_binary', *([npstub.DType(dt)] if dt else [])))
+            good = b[0] == 'ok' and isinstance(b[1], dict) and len(b[1]) == 4
+            why = f'{b[0]}: {b[1] if b[0] != "ok" else type(b[1]).__name__}'
+            if good:
+                for s in SEATS:
+                    v = b[1].get(players[s])
+                    okv = isinstance(v, npstub.Arr) and len(v) == 52 and set(v.data) <= {0, 1} and \
+                        {i for i, x in enumerate(v.data) if x == 1} == {idx(c) for c in hands[s]} and \
+                        npstub.kind(v.dtype) == ('f' if dt == 'float32' else 'i') and (dt is None or v.dtype.name == dt)
+                    if not okv:
+                        why = f'vector of {s}: {v!r}'[:160]
+                    good = good and okv
+            chk.require(good, 'C14.R2', w_np, q_np, f'to_np_binary({dt or "default dtype"}) of {name}',
+                        f'numpy vectors of "{name}" ({dt or "default dtype"}): 52 slots per seat with a 1 exactly at each card index',
+                        f'to_np_binary({dt or ""}) of "{name}" is not the 52-slot indicator vector of each hand ({why})')
+            if good:
+                back = fold('C14.R2', q_cn, lambda: f.call_class('Hands', 'convert_np_binary', b[1]))
+                chk.require(back[0] == 'ok' and same_hands(back[1], hands), 'C14.R2', w_cn, q_cn, f'convert_np_binary({dt or "default dtype"}) of {name}',
+                            f'convert_np_binary reads the vectors of "{name}" back to the same hands',
+                            f'convert_np_binary does not give back the hands of "{name}" ({back[0]}{": " + str(back[1]) if back[0] != "ok" else ""})')
+        # the reader on vectors built by this checker (not by the subject's writer)
+        chk.evals()
+        vecs = {players[s]: npstub.Arr([1 if i in {idx(c) for c in hands[s]} else 0 for i in range(52)], 'int32') for s in SEATS}
+        back = fold('C14.R2', q_cn, lambda: f.call_class('Hands', 'convert_np_binary', vecs))
+        chk.require(back[0] == 'ok' and same_hands(back[1], hands), 'C14.R2', w_cn, q_cn, f'convert_np_binary of the indicator vectors of {name}',
+                    f'convert_np_binary turns the indicator vectors of "{name}" into its hands',
+                    f'convert_np_binary of the indicator vectors of "{name}" does not give its hands ({back[0]})')
+    chk.floor('C14.R2', 'numpy conversions folded on the array model', n_np, 40)
+    f.numpy = None
 
     # ---- random dealer ---------------------------------------------------------------------------------------------
     w_g, q_g = loc(repo, 'Hands', 'generate_random_hands', 'C14.R4')
